@@ -229,8 +229,14 @@ func (f *Filter) hitTube(tubeIndex, q int) error {
 
 // Called when end of a tube is reached
 // A point in the tube -- the point with maximal q -- is (Tlen-1,q-1).
+// Tubes are TubeOffset+MaxError wide, so the tube that is complete is the one
+// holding the diagonal MaxError below that point.
 func (f *Filter) tubeEnd(q int) error {
-	diagIndex := f.diagIndex(f.target.Len()-1, q-1)
+	diagIndex := f.diagIndex(f.target.Len()-1, q-1) - f.maxError
+	if diagIndex < 0 {
+		// No tube is complete yet.
+		return nil
+	}
 	tubeIndex := f.tubeIndex(diagIndex)
 	tube := &f.tubes[tubeIndex%cap(f.tubes)]
 
